@@ -113,6 +113,9 @@ def stored(fmt, d):
         e[("cube", "origin")] = approx(d.cube.origin, 0.5e-6 + 1e-12)
         e[("cube", "axes")] = approx(d.cube.axes, 0.5e-6 + 1e-12)
         e[("cube", "data")] = approx(d.cube.data, 1e-300, 0.5e-5 * 1.01)
+        # the cell spanned by the grid (row i = step vector i times the number of points along it), which the reader returns as cellvecs
+        shape = np.array(d.cube.data.shape, dtype=float)
+        e[("cellvecs",)] = approx(d.cube.axes * shape[:, None], (0.5e-6 + 1e-12) * float(shape.max()))
         if d.title is not None:
             e[("title",)] = Exact(d.title)
     if fmt == "fcidump":
